@@ -14,7 +14,8 @@ import (
 
 // A case is one TLC state of spec/Kernels.tla: the inputs (c) and what the code must answer (e).
 type KCase struct {
-	C struct {
+	ID int `json:"id"`
+	C  struct {
 		K   string  `json:"k"`
 		X   []int64 `json:"x"`
 		Y   []int64 `json:"y"`
@@ -475,7 +476,7 @@ func runKernels(in string, res *Result) error {
 	withIndex := inp.Profile["index"] == true
 	for i := range inp.Cases {
 		kc := &inp.Cases[i]
-		id := fmt.Sprintf("%s#%d", kc.C.K, i)
+		id := fmt.Sprintf("%s#%d", kc.C.K, kc.ID)
 		res.Behaviours++
 		switch kc.C.K {
 		case "pair":
